@@ -121,6 +121,10 @@ func (fan *HwMonFan) AttachFanRpmCurveData(curveData *map[int]float64) (err erro
 
 	fan.FanCurveData = curveData
 
+	if fan.Config.StartPwm == nil {
+		// forget a start PWM measured from earlier data: only a configured value is an override
+		fan.StartPwm = nil
+	}
 	startPwm, maxPwm := ComputePwmBoundaries(fan)
 	fan.SetStartPwm(startPwm, false)
 	fan.SetMaxPwm(maxPwm, false)
